@@ -103,6 +103,29 @@ Allowed(c, dep, e) ==
 FrameOk(c) == LET dep == DependentFormulas(c)     \* evaluated once per case
               IN \A j \in 1..Len(c.changed) : Allowed(c, dep, c.changed[j])
 
+\* --- C23.anchor -------------------------------------------------------------------------------
+\* convert() is taken from the code (C22), but it has to be a FUNCTION of the type and the value: a few
+\* conversions are pinned down here by their meaning, so that a conversion that depends on what was
+\* converted before (a cache shared between columns, say) cannot agree with itself and pass.
+\* An ISO date-time text without an offset denotes that wall-clock time in the zone of the column:
+\*   2024-01-01T10:00:00  = 1704103200 UTC;  New York is UTC-5 in January, Tokyo UTC+9
+\*   2024-06-15 08:00:00  = 1718438400 UTC;  New York is UTC-4 in June
+Anchor(to, prev) ==
+  CASE to = "DateTime:UTC"              /\ prev = "s2024-01-01T10:00:00" -> "#1704103200"
+    [] to = "DateTime:America/New_York" /\ prev = "s2024-01-01T10:00:00" -> "#1704121200"
+    [] to = "DateTime:Asia/Tokyo"       /\ prev = "s2024-01-01T10:00:00" -> "#1704070800"
+    [] to = "DateTime:UTC"              /\ prev = "s2024-06-15 08:00:00" -> "#1718438400"
+    [] to = "DateTime:America/New_York" /\ prev = "s2024-06-15 08:00:00" -> "#1718452800"
+    [] to = "DateTime:Asia/Tokyo"       /\ prev = "s2024-06-15 08:00:00" -> "#1718406000"
+    [] to = "Date"                      /\ prev = "s2024-01-01"          -> "#1704067200"
+    [] to = "Int"                       /\ prev = "s1"                   -> "#1"
+    [] to = "Numeric"                   /\ prev = "s1.5"                 -> "#1.5"
+    [] to = "Bool"                      /\ prev = "strue"                -> "b1"
+    [] OTHER -> ""
+\* (evaluated on recorded cases, whose values are tokens: Trace_TypeChange)
+AnchorsOk(c) == \A j \in 1..Len(c.rows) :
+                  LET a == Anchor(c.to, c.rows[j].prev) IN a = "" \/ c.rows[j].after = a
+
 Clauses(c) ==
   (IF CellsOk(c) THEN {} ELSE {"C23.cells"}) \cup
   (IF FrameOk(c) THEN {} ELSE {"C23.frame"})
